@@ -4,6 +4,7 @@ package gen
 
 import (
 	"math"
+	"strings"
 	"reflect"
 	"time"
 
@@ -251,7 +252,9 @@ const (
 var smallStrings = []string{"", "a", "b", "ab", "abc", "x", "xy", "A", "hello", " a "}
 
 // HostileStrings stress quoting, escaping and the snapshot syntax.
-var HostileStrings = []string{"", "a", "\"", "'", "\\", "a\"b", "it's", "a\\b", "\n", "\t", "a,b", "(", ")", "[]", "->", "a->b", "é", "✓", "日本", "%d", "%s%v", "a b", " ", "//", "/*x*/", "\x00", "\x7f", "C(string->\"x\")", "true", "nil", "0x1", "a\")))),E(EA(A(C(string->\"b"}
+var HostileStrings = []string{"", "a", "\"", "'", "\\", "a\"b", "it's", "a\\b", "\n", "\t", "a,b", "(", ")", "[]", "->", "a->b", "é", "✓", "日本", "%d", "%s%v", "a b", " ", "//", "/*x*/", "\x00", "\x7f", "C(string->\"x\")", "true", "nil", "0x1", "a\")))),E(EA(A(C(string->\"b",
+	// bytes that are not valid UTF-8: the printer renders them as \xNN escapes, which denote single bytes
+	"\xff", "caf\xe9", "\xc3\x28", "a\x80b"}
 
 var smallFloats = []float64{0, 1, 2, 3, 0.5, 1.5, 2.5, -1, -0.5, 4, 0.25}
 
@@ -411,7 +414,8 @@ func JSONDoc(t Src, d Domain, label string) map[string]interface{} {
 		}
 		return genFloat(t, d, label+l)
 	}
-	str := func(l string) interface{} { return genString(t, d, label+l) }
+	// a JSON document cannot carry bytes that are not valid UTF-8 (the encoder replaces them)
+	str := func(l string) interface{} { return strings.ToValidUTF8(genString(t, d, label+l), "\uFFFD") }
 	return map[string]interface{}{
 		"n": num("n"), "f": num("f"), "s": str("s"), "b": t.Bool(label + "b"),
 		"o":    map[string]interface{}{"x": num("ox"), "s": str("os"), "k": map[string]interface{}{"z": num("okz")}},
@@ -482,7 +486,12 @@ func DrawLiteralFor(t Src, p PathInfo, d Domain, label string) gast.Expr {
 		}
 		return gast.F(f)
 	case gast.TStr:
-		return gast.S(genString(t, d, label))
+		v := genString(t, d, label)
+		if p.Backend == "json" {
+			// a JSON document cannot carry bytes that are not valid UTF-8
+			v = strings.ToValidUTF8(v, "\uFFFD")
+		}
+		return gast.S(v)
 	case gast.TBool:
 		return gast.B(t.Bool(label))
 	}
